@@ -93,7 +93,12 @@ def k_refuse(ctx, what, t, n):
           "msg_to_user": lambda: X.MessageToUserTlv(bytes(n)).pack(), "flow_label": lambda: X.FlowLabelTlv(bytes(n)).pack(),
           "entity_id": lambda: X.EntityIdTlv(bytes(n)).pack(),
           "fs_request": lambda: X.FileStoreRequestTlv(X.FilestoreActionCode(1), "x" * n).pack(),
-          "fs_response": lambda: X.FileStoreResponseTlv(X.FilestoreActionCode(1), X.FilestoreResponseStatusCode.DELETE_SUCCESS, "x" * n).pack()}[what]
+          "fs_response": lambda: X.FileStoreResponseTlv(X.FilestoreActionCode(1), X.FilestoreResponseStatusCode.DELETE_SUCCESS, "x" * n).pack(),
+          # value = 1 + (1 + 100) + (1 + 100) + (1 + len(msg)): n is the resulting value length, the surplus sits in the message / the second name
+          "fs_response_msg": lambda: X.FileStoreResponseTlv(X.FilestoreActionCode(2), X.FilestoreResponseStatusCode.RENAME_SUCCESS, "a" * 100, "b" * 100,
+                                                            X.CfdpLv(bytes(n - 204))).pack(),
+          "fs_response_second": lambda: X.FileStoreResponseTlv(X.FilestoreActionCode(2), X.FilestoreResponseStatusCode.RENAME_SUCCESS, "a" * 10, "b" * (n - 14)).pack(),
+          "fs_request_second": lambda: X.FileStoreRequestTlv(X.FilestoreActionCode(2), "a" * 10, "b" * (n - 13)).pack()}[what]
     ok, res = attempt(fn)
     ctx.ev("long_value_refused")
     if ok:
@@ -214,20 +219,30 @@ def k_defaults(ctx, name, p):
               name, case, expected=want[:60], observed=raw[:60] if ok2 else repr(raw))
 
 
-def _foreign_value_for(target):
-    """A value that is valid content for the *target* class (so that only the type can be objected to)."""
-    return {"entity_id": bytes([1, 2]), "flow_label": b"lbl", "fault_handler": bytes([0x41]), "msg_to_user": b"hello",
-            "fs_request": R.fs_request_value(1, b"a.txt"), "fs_response": R.fs_response_value(1, 0, b"a.txt", b"", b"")}[target]
+def _foreign_value_for(target, variant=0):
+    """A value that is valid content for the *target* class (so that only the type can be objected to).  Variants: content
+    the target class treats specially (a reserved 'cfdp' message, the longest value, an empty one)."""
+    vs = {"entity_id": [bytes([1, 2]), bytes(8), b"\xff" * 4, b"\x07"],
+          "flow_label": [b"lbl", b"", b"cfdp\x00", bytes(255)],
+          "fault_handler": [bytes([0x41]), bytes([0x12]), bytes([0xF4]), bytes([0x33])],
+          "msg_to_user": [b"hello", b"cfdp\x00" + R.lv(b"a") + R.lv(b"b") + R.lv(b"c"), b"cfdp\x0a\x11\x01\x05", b"cfdp\x10" + R.lv(b"dir") + R.lv(b"out"), b"cfdp", b""],
+          "fs_request": [R.fs_request_value(1, b"a.txt"), R.fs_request_value(2, b"a", b"b"), R.fs_request_value(0, b"cfdp\x00"), R.fs_request_value(6, b"")],
+          "fs_response": [R.fs_response_value(1, 0, b"a.txt", b"", b""), R.fs_response_value(2, 0, b"a", b"b", b"msg"), R.fs_response_value(0, 1, b"cfdp", b"", b"cfdp\x00"),
+                          R.fs_response_value(5, 15, b"d", b"", b"")]}[target]
+    return vs[variant % len(vs)]
 
 
-def k_type_safety(ctx, target, foreign_type, route):
+N_FOREIGN_VARIANTS = 6
+
+
+def k_type_safety(ctx, target, foreign_type, route, variant=0):
     X = C.lib()
     from spacepackets.cfdp.exceptions import TlvTypeMissmatch
-    case = {"k": "type_safety", "target": target, "foreign_type": foreign_type, "route": route}
-    ctx.case(f"type_safety/{target}/{route}", (target, foreign_type, route), sample=case)
+    case = {"k": "type_safety", "target": target, "foreign_type": foreign_type, "route": route, "variant": variant}
+    ctx.case(f"type_safety/{target}/{route}", (target, foreign_type, route, variant), sample=case)
     ctx.table("type_safety_matrix", f"{target}/{foreign_type}/{route}")
     cls = cls_of(target)
-    val = _foreign_value_for(target)
+    val = _foreign_value_for(target, variant)
     raw = R.tlv(foreign_type, val)
 
     def foreign_concrete():
@@ -236,6 +251,9 @@ def k_type_safety(ctx, target, foreign_type, route):
         p = {"entity_id": {"id": "0102"}, "flow_label": {"label": "6c626c"}, "fault_handler": {"cond": 4, "handler": 1},
              "msg_to_user": {"msg": "68656c6c6f"}, "fs_request": {"action": 1, "first": "a.txt", "second": ""},
              "fs_response": {"action": 1, "status": 0x10, "first": "a.txt", "second": "", "msg": ""}}[name]
+        if variant % 2 and name in ("entity_id", "flow_label", "msg_to_user"):
+            # a foreign object whose own (valid) content is what the target class would accept or treat specially
+            return make(name, {"entity_id": {"id": val.hex()}, "flow_label": {"label": val.hex()}, "msg_to_user": {"msg": val.hex()}}[name])[0]
         return make(name, p)[0]
 
     fn = {"unpack": lambda: cls.unpack(raw),
@@ -307,6 +325,23 @@ def run(ctx):
             k_refuse(ctx, "tlv", t, n)
         for what in ("lv", "msg_to_user", "flow_label", "entity_id", "fs_request", "fs_response"):
             k_refuse(ctx, what, 0, n)
+    for n in (256, 257, 300):
+        for what in ("fs_response_msg", "fs_response_second", "fs_request_second"):
+            k_refuse(ctx, what, 0, n)
+    # filestore requests / responses whose value is as long as a TLV allows (255 octets), and one / two octets less
+    for total in (255, 254, 253):
+        for a in (1, 2):
+            two = a in R.TWO_NAME_ACTIONS
+            n1 = r.randrange(1, 100)
+            n2 = r.randrange(1, 100) if two else 0
+            rest = total - 1 - (1 + n1) - ((1 + n2) if two else 0)
+            k_concrete(ctx, "fs_request", {"action": a, "first": "f" * (n1 + rest), "second": "s" * n2})
+            st = C.status_codes_for(a)[0]
+            for split in ("msg", "name"):
+                nm = rest - 1 if split == "msg" else r.randrange(0, 20)
+                k_concrete(ctx, "fs_response", {"action": a, "status": st, "first": "f" * (n1 + (0 if split == "msg" else rest - 1 - nm)), "second": "s" * n2,
+                                                "msg": rand_bytes(r, nm).hex()})
+            ctx.table("value_len_limit", f"{total}/{a}")
     # concrete TLVs
     for w in C.WIDTHS:
         for _ in range(4):
@@ -361,7 +396,8 @@ def run(ctx):
         for ft in R.TLV_TYPES:
             if ft != TYPE_OF[target]:
                 for route in ("unpack", "from_tlv", "holder_generic", "holder_concrete"):
-                    k_type_safety(ctx, target, ft, route)
+                    for variant in range(N_FOREIGN_VARIANTS):
+                        k_type_safety(ctx, target, ft, route, variant)
     ctx.exhaustive.append("6 concrete classes x 5 foreign TLV types x 4 routes (unpack, from_tlv, holder over generic TLV, holder over concrete object)")
 
 
